@@ -4,6 +4,6 @@ REF="${1:-HEAD}"
 D=$(mktemp -d /tmp/demo01.XXXX)
 git -C /repo worktree add --detach "$D/wt" "$REF" >/dev/null 2>&1 || { echo "worktree failed"; exit 2; }
 HERE="$(cd "$(dirname "$0")" && pwd)"
-cp "$HERE/demo01_internal_test.go.txt" "$D/wt/proxy/zz_demo01_internal_test.go"
-(cd "$D/wt" && GOFLAGS=-mod=mod GOPROXY=off go test -mod=mod -count=1 -timeout 90s -v -run "TestF11_" ./proxy/ 2>&1 | grep -vE "^20|^\s*go.temporal" | tail -${DEMO_LINES:-25})
+cp "$HERE/demo01_internal_test.go.txt" "$D/wt/proxy/zz_demo01_internal_test.go"; cp "$HERE/demo01b_internal_test.go.txt" "$D/wt/proxy/zz_demo01b_internal_test.go"
+(cd "$D/wt" && GOFLAGS=-mod=mod GOPROXY=off go test -mod=mod -count=1 -timeout 90s -v -run "${DEMO_RUN:-TestF11_|TestF13_}" ./proxy/ 2>&1 | grep -vE "^20|^\s*go.temporal" | tail -${DEMO_LINES:-25})
 git -C /repo worktree remove --force "$D/wt"; rm -rf "$D"
